@@ -3,6 +3,7 @@ module ytcheck
 go 1.24.1
 
 require (
+	github.com/magiconair/properties v1.8.10
 	github.com/rkosegi/yaml-toolkit v0.0.0
 	gopkg.in/yaml.v3 v3.0.1
 )
@@ -13,7 +14,6 @@ require (
 	github.com/go-task/slim-sprig/v3 v3.0.0 // indirect
 	github.com/golang/groupcache v0.0.0-20210331224755-41bb18bfe9da // indirect
 	github.com/google/go-cmp v0.7.0 // indirect
-	github.com/magiconair/properties v1.8.10 // indirect
 	golang.org/x/net v0.39.0 // indirect
 	golang.org/x/text v0.24.0 // indirect
 )
